@@ -50,11 +50,21 @@ def strategy(tier):
         if part == "A":
             m = draw(S.event_model())
             su = draw(S.stochastic_setup(m))
-            return {"part": "A", "model": m, "setup": su, "seeds": [s1, s2], "iters": draw(st.integers(1, 4)),
+            rnd_mag = None
+            if draw(st.integers(0, 3)) == 0:
+                # a jump size carried by a parameter that is itself random (batch sizes ~ a discrete distribution): redrawn for
+                # every run from the seeded global stream, like any other random parameter
+                pm = draw(S.parametrise_magnitudes(m, su))
+                if pm is not None:
+                    m, su, _alt = pm
+                    rnd_mag = {"hi": draw(st.integers(3, 6)), "form": draw(st.sampled_from(["frozen", "tuple"]))}
+            return {"part": "A", "model": m, "setup": su, "seeds": [s1, s2], "iters": draw(st.integers(1, 4)), "random_magnitude": rnd_mag,
                     "exact": draw(st.booleans()), "grid_n": draw(st.sampled_from([0, 0, 5])),
                     # the simulated object is a copy.deepcopy of the configured model (what the package's own
                     # profile-likelihood code does with models)
-                    "deepcopy": draw(st.integers(0, 3)) == 0}
+                    # (not together with random parameters: a deep copy of a frozen scipy distribution owns a private copy of
+                    # the generator - that is scipy's and deepcopy's doing, on any tree)
+                    "deepcopy": draw(st.integers(0, 3)) == 0 and rnd_mag is None}
         m = draw(S.ode_model(allow_time=False, families=("chain", "epidemic")))
         su = draw(S.ode_setup(m, n_times=(2, 8), t_max=4.0))
         spec = []
@@ -103,6 +113,12 @@ def _param_dict(m, spec, order):
     return dict(items[i] for i in order)
 
 
+def _randint1(n, lo, hi):
+    """A user's (sampler, args) sampler of whole numbers lo..hi-1 from the global NumPy stream."""
+    v = np.random.randint(lo, hi, size=n)
+    return float(v[0]) if n == 1 else v.astype(float)
+
+
 def _same(a, b):
     a, b = np.asarray(a), np.asarray(b)
     return a.shape == b.shape and np.array_equal(a, b)
@@ -117,6 +133,15 @@ def oracle(case, rec):
     if case["part"] == "A":
         exact = case["exact"]
         model, order = stoch.prepare(m, su)
+        rm = case.get("random_magnitude")
+        if rm:
+            import scipy.stats as ss
+            rec.label("parameters:random-jump-size")
+            pd = {p: v for p, v in zip(m["params"], su["theta"])}
+            for p in m["params"]:
+                if p.startswith("kmag"):
+                    pd[p] = ss.randint(1, rm["hi"]) if rm["form"] == "frozen" else (_randint1, (1, rm["hi"]))
+            model.parameters = pd
         if case.get("deepcopy"):
             import copy
             model = call("C16/deepcopy", case, copy.deepcopy, model)
